@@ -298,7 +298,7 @@ def field_pairs(store, stride):
             by_item.setdefault(f[4], []).append(f)
     keys = [it["key"] for it in store.items]
     for n, k in enumerate(keys):
-        if n % stride:
+        if n % stride and n != len(keys) - 1:  # the last item (whose array ends the file) is always included
             continue
         fl = by_item[k]
         for a in range(len(fl)):
@@ -323,7 +323,7 @@ def shards(tier, seed):
         ["empty", "nodes", "full", "full_noindex", "full_noref", "ts", "schemas", "stream3", "stream2"]
     for fn in files:
         for li in range(len(LOADERS)):
-            if tier == "quick" and fn != "full" and li >= 2:
+            if tier == "quick" and fn != "full" and li not in (0, 1, 3, 5):
                 continue
             for k in range(4):
                 specs.append(dict(kind="prefix", file=fn, loader=li, k=k, n=4, _resumable=True))
@@ -361,8 +361,14 @@ def run_shard(spec):
     li = spec["loader"]
     try:
         ctx.base(li)
-    except Exception:  # noqa: this loader legitimately refuses the unfaulted file (tskit.load of unindexed tables)
-        acc.count("skipped_loader_refuses_unfaulted_file")
+    except Exception as e:  # noqa
+        if spec["file"] == "full_noindex" and LOADERS[li][0] == "ts" and "TABLES_NOT_INDEXED" in str(e):
+            # tskit.load legitimately refuses unindexed tables before any fault is applied
+            acc.count("skipped_loader_refuses_unfaulted_file")
+            return acc.result()
+        acc.ev(1, True)
+        acc.fail("baseline:unfaulted-load-failed", f"loading the unfaulted {spec['file']} with {LOADERS[li]} raised {e!r}",
+                 {"kind": "baseline", "file": spec["file"], "loader": li})
         return acc.result()
     data = ctx.data
     skip = spec.get("_skip", 0)
@@ -478,6 +484,12 @@ def replay(case):
     data = ctx.data
     li = case["loader"]
     kind = case["kind"]
+    if kind == "baseline":
+        try:
+            ctx.base(li)
+        except Exception as e:  # noqa
+            acc.fail("baseline:unfaulted-load-failed", repr(e), case)
+        return acc.failures
     if kind == "prefix":
         judge_load(ctx, li, data[:case["cut"]], "prefix", None, acc, case, "prefix")
     elif kind in ("struct", "data"):
